@@ -596,6 +596,16 @@ func runC19(c *fw.Ctx) {
 		step("SetTF(nested object)", func() at.List { return l.SetTF("#1.k", 5) })
 		step("SetTF(nested list)", func() at.List { return l.SetTF("#2#1", 5) })
 		// new rows and records behind the end, next to neighbours of every kind
+		step("SetTF(through a nil slot, record)", func() at.List {
+			return l.Add(nil).SetTF(fmt.Sprintf("#%d.name", l.Count()-1), 1)
+		})
+		step("SetTF(through a nil slot, row)", func() at.List {
+			return l.Add(nil, 2).SetTF(fmt.Sprintf("#%d#0", l.Count()-2), 1)
+		})
+		step("SetTF(through a padded slot)", func() at.List {
+			n := l.Count()
+			return l.SetTF(fmt.Sprintf("#%d", n+2), "far").SetTF(fmt.Sprintf("#%d.k.j", n), 1).SetTF(fmt.Sprintf("#%d#1", n+1), 1)
+		})
 		step("SetTF(new row behind a row)", func() at.List {
 			return l.Add(at.NewList(1)).SetTF(fmt.Sprintf("#%d#0", l.Count()), 9)
 		})
@@ -760,6 +770,28 @@ func runC19(c *fw.Ctx) {
 			same("List.GetTF", holderL.GetTF("#1"))
 			same("Object.GetTF", holderO.GetTF(".d"))
 			same("nested GetTF", nest.GetTF(".deep#0.x"))
+			// the value stored through a handle embedded in it (what a method of an inner type has in its hands): Get
+			// resolves the registered pointer, and the typed getters and the tree-form reads are Get with a check
+			for hi, handle := range append([]any{fx.inner}, fx.mids...) {
+				if handle == nil {
+					continue
+				}
+				hl, ho := at.NewList(0, handle), at.NewObject("d", handle)
+				hn := at.NewObject("deep", at.NewList(at.NewObject("x", handle)))
+				via := fmt.Sprintf(" (stored through embedded handle %d)", hi)
+				same("List.Get"+via, hl.Get(1))
+				same("Object.Get"+via, ho.Get("d"))
+				same("List.GetTF"+via, hl.GetTF("#1"))
+				same("Object.GetTF"+via, ho.GetTF(".d"))
+				same("nested GetTF"+via, hn.GetTF(".deep#0.x"))
+				if storedIsList {
+					same("List.GetList"+via, hl.GetList(1))
+					same("Object.GetList"+via, ho.GetList("d"))
+				} else {
+					same("List.GetObject"+via, hl.GetObject(1))
+					same("Object.GetObject"+via, ho.GetObject("d"))
+				}
+			}
 			same("List.Filter", firstContainer(holderL.Filter(func(v any) bool { return true })))
 			same("List.Map(identity)", firstContainer(holderL.Map(func(i int, v any) any { return v })))
 			same("List.Clone keeps plain copy", fx.outer) // trivially true: Clone makes plain copies, nothing claimed
